@@ -84,6 +84,14 @@ pub struct Exec {
     now: u64,
     last_tip: (packed::Byte32, BigUint),
     snaps: Vec<Arc<Snapshot>>,
+    /// what each captured snapshot answered, at capture, to by-hash queries for every scenario block
+    snap_answers: Vec<Vec<(String, u64)>>,
+    snap_raw: Vec<BTreeSet<usize>>,
+    /// a violation that is reported only when the run ends without any other
+    deferred: Option<(String, String, String)>,
+    /// blocks that a snapshot taken BEFORE their deletion was asked for again AFTER it (the old view
+    /// still holds them and hands their parts to the shared read caches)
+    reread_after_delete: BTreeSet<usize>,
     ft: ckb_systemtime::FaketimeGuard,
     progress: Option<std::fs::File>,
     max_reorg: u64,
@@ -199,6 +207,10 @@ impl Exec {
             now,
             last_tip,
             snaps: Vec::new(),
+            snap_answers: Vec::new(),
+            snap_raw: Vec::new(),
+            deferred: None,
+            reread_after_delete: BTreeSet::new(),
             ft,
             progress,
             max_reorg: 0,
@@ -511,8 +523,10 @@ impl Exec {
             }
             let blk = &self.w.blocks[b];
             let h = blk.view.hash();
+            // (see `reread_after_delete`: such answers are compared under a label of their own)
+            let tag = if self.reread_after_delete.contains(&b) { "_after_stale_reader" } else { "" };
             let q = |name: &str, bytes: Option<Vec<u8>>| -> (String, u64) {
-                (format!("{name}#{b}"), bytes.map(|x| fp_bytes(&x)).unwrap_or(0))
+                (format!("{name}{tag}#{b}"), bytes.map(|x| fp_bytes(&x)).unwrap_or(0))
             };
             out.push(q("header", store.get_block_header(&h).map(|x| x.data().as_slice().to_vec())));
             out.push(q("uncles", store.get_block_uncles(&h).map(|x| x.data().as_slice().to_vec())));
@@ -631,6 +645,11 @@ impl Exec {
                 self.viol(&prop, &format!("node_panic:{}", msg.split(" | ").next().unwrap_or("")), format!("the node panicked during the final drain: {}", msg));
             }
         }
+        if finished {
+            if let Some((prop, class, detail)) = self.deferred.take() {
+                self.viol(&prop, &class, detail);
+            }
+        }
         self.res.probes.add("durable_writes", ckb_db::verif::writes());
         self.res.log_hash = self.log.finish();
         self.res.interleaving = self.il.finish();
@@ -646,6 +665,17 @@ impl Exec {
     }
 
     fn step(&mut self, op: &Op) {
+        if let Some(w) = std::env::var_os("SIM_WATCH_BLOCK") {
+            if let Ok(b) = w.to_string_lossy().parse::<usize>() {
+                if b < self.w.blocks.len() {
+                    let h = self.w.blocks[b].view.hash();
+                    let st = self.node.shared.store();
+                    let raw = st.get(COLUMN_BLOCK_HEADER, h.as_slice()).is_some();
+                    let cached = st.cache().map(|c| c.headers.lock().contains(&h)).unwrap_or(false);
+                    eprintln!("[watch] before {:?}: block {b} raw {raw} cached {cached}", op);
+                }
+            }
+        }
         self.eff_ops.push(op.clone());
         match op {
             Op::Deliver { b } => {
@@ -734,8 +764,30 @@ impl Exec {
             }
             Op::Snapshot => {
                 self.il.write_u64(5);
-                self.snaps.push(self.node.shared.cloned_snapshot());
+                let s = self.node.shared.cloned_snapshot();
+                let a = self.snapshot_answers(&s);
+                // which blocks the snapshot's own view holds (no cache involved)
+                let raw: BTreeSet<usize> = (1..self.w.blocks.len()).filter(|b| s.get(COLUMN_BLOCK_HEADER, self.w.blocks[*b].view.hash().as_slice()).is_some()).collect();
+                // the published snapshot is replaced only when the tip changes: a block deleted since
+                // then (invalid side block, expired orphan) is still in its view, and reading it
+                // through the snapshot hands its parts back to the shared caches
+                {
+                    let live = self.node.shared.store();
+                    for b in raw.iter() {
+                        if live.get(COLUMN_BLOCK_HEADER, self.w.blocks[*b].view.hash().as_slice()).is_none() {
+                            self.reread_after_delete.insert(*b);
+                            self.res.probes.inc("deleted_block_read_through_published_snapshot");
+                        }
+                    }
+                }
+                self.snaps.push(s);
+                self.snap_answers.push(a);
+                self.snap_raw.push(raw);
                 self.res.faults.inc("snapshot_reader");
+            }
+            Op::StaleRead => {
+                self.il.write_u64(11);
+                self.stale_reads("stale_read");
             }
             Op::Clock { ms } => {
                 self.il.write_u64(6);
@@ -859,6 +911,69 @@ impl Exec {
                 self.ev("filter_build_racing");
             }
             Op::Restart | Op::Crash { .. } => unreachable!(),
+        }
+    }
+
+    /// By-hash answers of one snapshot for every block of the scenario, delivered or not.
+    fn snapshot_answers(&mut self, s: &Arc<Snapshot>) -> Vec<(String, u64)> {
+        let mut out = Vec::new();
+        for b in 1..self.w.blocks.len() {
+            let h = self.w.blocks[b].view.hash();
+            let fpo = |x: Option<Vec<u8>>| x.map(|v| fp_bytes(&v)).unwrap_or(0);
+            out.push((format!("header#{b}"), fpo(s.get_block_header(&h).map(|x| x.data().as_slice().to_vec()))));
+            // only questions a node's own code asks with a hash of unknown standing (the RPC by-hash
+            // lookups: header first, then the whole block); the part accessors are reached with hashes
+            // of known blocks only
+            if std::env::var_os("SIM_TRACE_SNAP").is_some() {
+                use ckb_db_schema::{COLUMN_BLOCK_HEADER, COLUMN_BLOCK_UNCLE, COLUMN_BLOCK_PROPOSAL_IDS, COLUMN_BLOCK_EXT};
+                eprintln!("[snap] block {b}: raw header {} uncle {} proposals {} ext {} | via accessor header {}", s.get(COLUMN_BLOCK_HEADER, h.as_slice()).is_some(), s.get(COLUMN_BLOCK_UNCLE, h.as_slice()).is_some(), s.get(COLUMN_BLOCK_PROPOSAL_IDS, h.as_slice()).is_some(), s.get(COLUMN_BLOCK_EXT, h.as_slice()).is_some(), s.get_block_header(&h).is_some());
+            }
+            let s2 = Arc::clone(s);
+            let h2 = h.clone();
+            let r = std::panic::catch_unwind(std::panic::AssertUnwindSafe(move || s2.get_block(&h2).map(|x| x.data().as_slice().to_vec())));
+            match r {
+                Ok(x) => out.push((format!("block#{b}"), fpo(x))),
+                Err(_) => out.push((format!("block#{b}"), u64::MAX)),
+            }
+        }
+        out
+    }
+
+    /// C02 / C14: a published snapshot answers every by-hash query the way it did when it was taken,
+    /// whatever happened to the chain and to the shared read caches since; it never panics.
+    fn stale_reads(&mut self, why: &str) {
+        let snaps = self.snaps.clone();
+        for (k, s) in snaps.iter().enumerate() {
+            let before = self.snap_answers[k].clone();
+            {
+                let live = self.node.shared.store();
+                for b in self.snap_raw[k].clone() {
+                    if live.get(COLUMN_BLOCK_HEADER, self.w.blocks[b].view.hash().as_slice()).is_none() {
+                        self.reread_after_delete.insert(b);
+                    }
+                }
+            }
+            let now = self.snapshot_answers(s);
+            self.res.probes.inc("snapshot_asked_again");
+            for ((name, a), (_, b)) in before.iter().zip(now.iter()) {
+                if *b == u64::MAX {
+                    let msg = crate::LAST_PANIC.lock().unwrap().clone().unwrap_or_default();
+                    let d = format!("{why}: snapshot #{k} panics when asked for {name} (at capture: {}): {}", if *a == 0 { "None" } else if *a == u64::MAX { "panic too" } else { "Some" }, msg.split(" | ").next().unwrap_or(""));
+                    if self.deferred.is_none() {
+                        self.deferred = Some(("C14".into(), "snapshot_read_panics".into(), d));
+                    }
+                    return;
+                }
+                if a != b {
+                    let part = name.split('#').next().unwrap_or("");
+                    let d = format!("{why}: snapshot #{k} answered {} for {name} when it was taken and {} now", if *a == 0 { "None/empty".to_string() } else { format!("{a:x}") }, if *b == 0 { "None/empty".to_string() } else { format!("{b:x}") });
+                    // reported only if the run has nothing else to report (it must not hide another violation)
+                    if self.deferred.is_none() {
+                        self.deferred = Some(("C14".into(), format!("snapshot_answer_changed:{part}"), d));
+                    }
+                    return;
+                }
+            }
         }
     }
 
@@ -1126,6 +1241,9 @@ impl Exec {
             }
             let h = blk.view.hash();
             let stored = store.get_block_header(&h).is_some();
+            if std::env::var_os("SIM_TRACE_SNAP").is_some() {
+                eprintln!("[clean] block {b}: accessor header {} raw {}", stored, store.get(COLUMN_BLOCK_HEADER, h.as_slice()).is_some());
+            }
             if !stored && !self.node.chain.is_pending_verify(&h) {
                 let invalid_known = self.node.shared.get_block_status(&h) == ckb_shared::block_status::BlockStatus::BLOCK_INVALID;
                 if !invalid_known {
@@ -1588,6 +1706,7 @@ impl Exec {
                 .collect();
             self.res.extra = Some(serde_json::json!({ "c14": filtered, "freeze_windows": self.freeze_windows, "eff_ops": self.eff_ops }));
         }
+        self.stale_reads("final");
         let snaps = std::mem::take(&mut self.snaps);
         for s in snaps {
             if let Err((class, d)) = compare_state(&self.w, &*s, Some(&*s)) {
